@@ -21,6 +21,7 @@ pub fn run_stream(ctx: &mut Ctx, name: &str) {
 			concat_stream(ctx);
 		},
 		"big" => big_stream(ctx),
+		"like" => crate::like::like_stream(ctx),
 		"bulk" => bulk_stream(ctx),
 		"append" => crate::append::append_stream(ctx),
 		"utf8" => utf8_stream(ctx),
